@@ -147,7 +147,8 @@ let check _ln line =
       let r =
         if (not sensitive_q) && (not sensitive_d) then r0
         else if not sensitive_d then (if q <> 0 then r1 else r0)
-        else run (v land 3) in
+        else if sensitive_q then run (v land 3)
+        else run (v land 2) in   (* quote_fix cannot matter when the current model does not panic *)
       let m = final_meters r in
       let ok_outcome =
         if obs = "CRASH stack" then
